@@ -93,6 +93,9 @@ def _one(args):
     from . import solve as SV
     try:
         spec = load_spec(spec_path, prop)
+        SV.RACE = bool(spec.ns.get("SOLVER_RACE", False))
+        if spec.ns.get("BUDGET_MUTANTS"):
+            budget = spec.ns["BUDGET_MUTANTS"]
         t = spec.targets[target_ref] if isinstance(target_ref, int) else [x for x in spec.targets if x.ref == target_ref][0]
         target_ref = t.ref
         e = Engine(spec, t, mutate=make_mutator(desc))
@@ -100,14 +103,22 @@ def _one(args):
         obls = [o for o in e.obls if o.kind != "canary" and not o.kind.startswith("cover.")]
         obls.sort(key=lambda o: (o.kind == "frame", o.kind.startswith("call.pre")))
         bad = []
+        undecided_ = []
         for i in range(0, len(obls), 6):
             chunk = obls[i:i + 6]
             results = SV.solve_all(chunk, budget, jobs=3)
             bad = [(o.name if not o.parts else o.name + " (one of its clauses)", r["result"]) for o, r in zip(chunk, results) if r["result"] != "unsat"]
-            if bad:
+            if [b for b in bad if b[1] == "sat"]:
+                bad = [b for b in bad if b[1] == "sat"]
                 break
+            if bad:
+                undecided_ = bad
+                bad = []
         if bad:
             return {"id": mid, "target": target_ref, "status": "killed", "by": bad[0][0], "how": bad[0][1]}
+        if undecided_:
+            # no obligation refuted, some left open by the solvers: the mutant is not proved either way
+            return {"id": mid, "target": target_ref, "status": "killed", "by": undecided_[0][0], "how": "undecided"}
         return {"id": mid, "target": target_ref, "status": "survived"}
     except (EngineError, SpecDrift, TypeError, AttributeError, z3.Z3Exception) as ex:
         # TypeError/AttributeError: a spec lambda no longer fits the values the mutated code produces
